@@ -41,16 +41,53 @@ ASSUMPTIONS = [
 ]
 
 
+class _ScriptedRandom:
+    """Stands in for the random.Random wrapped by the stream: returns the
+    scripted uniform at planned call indices, the real generator's otherwise
+    (the real generator is advanced either way)."""
+
+    def __init__(self, real, owner):
+        self._real = real
+        self._owner = owner
+
+    def random(self):
+        o = self._owner
+        i = o.calls
+        o.calls += 1
+        v = self._real.random()
+        if i in o.plan:
+            o.injected += 1
+            return o.plan[i]
+        return v
+
+    def seed(self, *a):
+        return self._real.seed(*a)
+
+    def getstate(self):
+        return self._real.getstate()
+
+    def setstate(self, st):
+        return self._real.setstate(st)
+
+
 class ScriptedStream(MersenneTwister):
-    """Seeded stream that returns scripted uniforms at planned call indices."""
+    """The library's own stream with scripted uniforms injected *below* it (at
+    the wrapped generator), so next_float, next_bool and next_int of the real
+    class are exercised.  If a refactoring removes that seam the stream falls
+    back to overriding next_float only."""
 
     def __init__(self, seed, plan=None):
         super().__init__(seed)
         self.plan = dict(plan or {})
         self.calls = 0
         self.injected = 0
+        self._seam = hasattr(self, "_random") and hasattr(self._random, "random")
+        if self._seam:
+            self._random = _ScriptedRandom(self._random, self)
 
     def next_float(self):
+        if self._seam:
+            return super().next_float()
         i = self.calls
         self.calls += 1
         v = super().next_float()
@@ -58,12 +95,6 @@ class ScriptedStream(MersenneTwister):
             self.injected += 1
             return self.plan[i]
         return v
-
-    def next_bool(self):
-        return self.next_float() < 0.5
-
-    def next_int(self, lo, hi):
-        return lo + math.floor((hi - lo + 1) * self.next_float())
 
 
 def _nonneg(x, p):
@@ -88,7 +119,9 @@ SPECS = {
                      invalid=[[0, 0.5], [-1, 0.5], [5, 1.5], [5, -0.5], [2.5, 0.5]],
                      support=lambda x, p: type(x) is int and 0 <= x <= p[0]),
     "DiscreteUniform": dict(cls=D.DistDiscreteUniform, args=["lo", "hi"],
-                            regimes=[[0, 1], [-5, 5], [1, 6], [0, 10 ** 6]],
+                            regimes=[[0, 1], [-5, 5], [1, 6], [0, 10 ** 6],
+                                     [10 ** 15, 10 ** 15 + 5], [2 ** 60 + 1, 2 ** 60 + 10],
+                                     [-2 ** 70 - 3, -2 ** 70 + 3]],
                             invalid=[[5, 5], [6, 5], [0.5, 3], [0, 3.5]],
                             support=lambda x, p: type(x) is int and p[0] <= x <= p[1]),
     "Constant": dict(cls=D.DistConstant, args=["constant"],
@@ -332,8 +365,8 @@ def random_params(rng, name):
     if name == "Binomial":
         return [rng.choice([1, 2, 5, 30]), rng.choice([0.0, 1.0, pr()])]
     if name == "DiscreteUniform":
-        lo = rng.randint(-100, 100)
-        return [lo, lo + rng.choice([1, 2, 10, 10 ** 9])]
+        lo = rng.choice([rng.randint(-100, 100), 10 ** 15, 1700000000000, 2 ** 60 + 1])
+        return [lo, lo + rng.choice([1, 2, 5, 10, 10 ** 9])]
     if name == "Constant":
         return [rng.choice([0, 1, -1.5, 1e9])]
     if name == "Erlang":
